@@ -163,7 +163,8 @@ def run(ctx):
                 impl.opener = Op()
                 cur = {}
                 dropped = set(tuple(x) for x in drop)
-                conns = [base, conn_http.BAuthConn(base, 'u', 'p'), conn_http.HttpConn(base)]
+                conns = [base, conn_http.ClientAuthConn(base, 'cname', 'u', 'p'), conn_http.HttpConn(base),
+                         conn_http.BAuthConn(base, 'u', 'p'), conn_http.TokenAuthConn(conn_http.HttpConn(base), 'tok', 'descr')]
                 import urllib.request
                 bodies = []
                 caller_headers = {'Accept': 'text/plain'} if shared else None     # one dict object for all requests
@@ -288,7 +289,8 @@ def replay(ctx, case):
                     raise http.client.RemoteDisconnected('Remote end closed connection without response')
                 return _Resp()
         impl.opener = Op()
-        conns = [base, conn_http.BAuthConn(base, 'u', 'p'), conn_http.HttpConn(base)]
+        conns = [base, conn_http.ClientAuthConn(base, 'cname', 'u', 'p'), conn_http.HttpConn(base),
+                 conn_http.BAuthConn(base, 'u', 'p'), conn_http.TokenAuthConn(conn_http.HttpConn(base), 'tok', 'descr')]
         bodies = []
         cur = {}
         rej = [tuple(x) for x in case.get('rej', [])]
